@@ -236,7 +236,14 @@ impl AggregateStreamMerger {
                     let value = column_views[0]
                         .get(row_idx)
                         .ok_or_else(|| "missing bucket value".to_string())?;
-                    bucket = Self::scalar_to_u64(value);
+                    bucket = match value {
+                        // A bucket that starts before 1970 is emitted as `bucket as i64` by the
+                        // shards: keep the bit pattern, as the output below converts it back
+                        ScalarValue::Int64(i) | ScalarValue::Timestamp(i) if *i < 0 => {
+                            Some(*i as u64)
+                        }
+                        _ => Self::scalar_to_u64(value),
+                    };
                     metric_start_idx = 1;
                 }
             }
